@@ -1291,9 +1291,33 @@ class Engine:
         for name, expr in c.ensures.items():
             g = self.eval_spec(expr, st, bound, res, pre, c)
             st.assume(Implies(And(*self.guards), g))
+        if c.functional is not None and res.ty.kind == "int":
+            app = self.functional_app(pre, qname, [bound[p] for p in params])
+            st.assume(Implies(And(*self.guards), And(Not(res.none), res.v == app)))
         # write back mutated sequence parameters to the caller's l-values
         self._post_call_bound = bound
         return res
+
+    def functional_app(self, st: State, qname: str, args: List[SV]):
+        """F_<qname>(args, heap arrays the function may read): the value of a deterministic (side-effect free on what it
+        reads) int-valued function.  Sound as long as the function's result depends only on its arguments and on the
+        listed heap fields (reviewed in the contract; the function's own body is verified against the same contract)."""
+        c = self.reg.contracts[qname]
+        terms = []
+        for a in args:
+            if a.ty.kind in ("int", "obj", "bool", "str"):
+                terms.append(a.v)
+            elif a.ty.kind == "func":
+                terms.append(z3.StringVal(str(a.tag[-1]) if a.tag else "?"))
+            else:
+                raise Unsupported(f"functional contract {qname}: argument of type {a.ty}")
+        for key in c.functional:
+            owner, fname = key.rsplit(".", 1)
+            extra = getattr(self, "extra_fields", {})
+            ty = self.field_type(owner, fname)
+            terms += list(self.heap_get(st, key, ty))
+        F = z3.Function("F_" + qname.replace(".", "_"), *[t.sort() for t in terms], z3.IntSort())
+        return F(*terms)
 
     def signature(self, qname: str):
         fi = self.repo.funcs[qname] if qname in self.repo.funcs else None
